@@ -85,7 +85,9 @@ func renamer(pairs ...string) func(string) string {
 		// identifier-wise replacement
 		var b strings.Builder
 		i := 0
-		isId := func(c byte) bool { return c == '_' || c >= 'a' && c <= 'z' || c >= 'A' && c <= 'Z' || c >= '0' && c <= '9' }
+		isId := func(c byte) bool {
+			return c == '_' || c >= 'a' && c <= 'z' || c >= 'A' && c <= 'Z' || c >= '0' && c <= '9'
+		}
 		for i < len(s) {
 			if isId(s[i]) {
 				j := i
@@ -446,14 +448,14 @@ func stmtStr(s ast.Stmt) string {
 // ---- R4: one normalisation point ----
 
 var sanctionedSliceReaders = map[string]string{
-	"py.NewSlice":             "constructor",
-	"py.SliceNew":             "constructor (slice(...) builtin)",
-	"(*py.Slice).GetIndices":  "the normalisation point",
-	"(*py.Slice).M__eq__":     "compares the three fields for identity, does not interpret them",
-	"(*py.Slice).M__ne__":     "as M__eq__",
-	"(*py.Slice).M__repr__":   "prints the fields",
-	"(*py.Slice).M__str__":    "prints the fields",
-	"py.init":                 "attribute table of the slice type (start/stop/step getters)",
+	"py.NewSlice":              "constructor",
+	"py.SliceNew":              "constructor (slice(...) builtin)",
+	"(*py.Slice).GetIndices":   "the normalisation point",
+	"(*py.Slice).M__eq__":      "compares the three fields for identity, does not interpret them",
+	"(*py.Slice).M__ne__":      "as M__eq__",
+	"(*py.Slice).M__repr__":    "prints the fields",
+	"(*py.Slice).M__str__":     "prints the fields",
+	"py.init":                  "attribute table of the slice type (start/stop/step getters)",
 	"(*py.Slice).M__getattr__": "attribute access",
 }
 
